@@ -1,1 +1,2 @@
 //! helpers shared by the vh-engine harness binaries (repo-specific; generic ones are in vh-common)
+pub mod histories;
